@@ -393,6 +393,11 @@ class InverseMatcher(WrappingMatcher):
 
             break
 
+        # If the child ran out inside the loop, the remaining IDs match unless
+        # they are missing (deleted)
+        while self._id < self.limit and missing(self._id):
+            self._id += 1
+
     def id(self):
         return self._id
 
